@@ -76,6 +76,7 @@ type vpShape struct {
 	SFs    []sfShape    `json:"sfs"`
 	Expels []expelShape `json:"expels,omitempty"`
 	Tag    string       `json:"tag,omitempty"`
+	ID     string       `json:"id,omitempty"` // voteproof ID to set (SetID, test fixture); "" = the constructor's fresh one
 }
 
 // ---------------------------------------------------------------- world
@@ -317,6 +318,9 @@ func (w *world) build(s *vpShape) built {
 	switch {
 	case s.Kind == kPlain && !s.Acc:
 		vp := isaac.NewINITVoteproof(pt)
+		if s.ID != "" {
+			vp.SetID(s.ID)
+		}
 		vp.SetSignFacts(sfs).SetThreshold(th).SetMajority(maj)
 		if s.Fin {
 			vp.Finish()
@@ -324,6 +328,9 @@ func (w *world) build(s *vpShape) built {
 		out = vp
 	case s.Kind == kPlain && s.Acc:
 		vp := isaac.NewACCEPTVoteproof(pt)
+		if s.ID != "" {
+			vp.SetID(s.ID)
+		}
 		vp.SetSignFacts(sfs).SetThreshold(th).SetMajority(maj)
 		if s.Fin {
 			vp.Finish()
@@ -331,6 +338,9 @@ func (w *world) build(s *vpShape) built {
 		out = vp
 	case s.Kind == kExpel && !s.Acc:
 		vp := isaac.NewINITExpelVoteproof(pt)
+		if s.ID != "" {
+			vp.SetID(s.ID)
+		}
 		vp.SetSignFacts(sfs).SetThreshold(th).SetMajority(maj)
 		vp.SetExpels(bops)
 		if s.Fin {
@@ -339,6 +349,9 @@ func (w *world) build(s *vpShape) built {
 		out = vp
 	case s.Kind == kExpel && s.Acc:
 		vp := isaac.NewACCEPTExpelVoteproof(pt)
+		if s.ID != "" {
+			vp.SetID(s.ID)
+		}
 		vp.SetSignFacts(sfs).SetThreshold(th).SetMajority(maj)
 		vp.SetExpels(bops)
 		if s.Fin {
@@ -347,6 +360,9 @@ func (w *world) build(s *vpShape) built {
 		out = vp
 	case s.Kind == kStuck && !s.Acc:
 		vp := isaac.NewINITStuckVoteproof(pt)
+		if s.ID != "" {
+			vp.SetID(s.ID)
+		}
 		vp.SetSignFacts(sfs).SetThreshold(th).SetMajority(maj)
 		vp.SetExpels(bops)
 		if s.Fin {
@@ -359,6 +375,9 @@ func (w *world) build(s *vpShape) built {
 		out = vp
 	default:
 		vp := isaac.NewACCEPTStuckVoteproof(pt)
+		if s.ID != "" {
+			vp.SetID(s.ID)
+		}
 		vp.SetSignFacts(sfs).SetThreshold(th).SetMajority(maj)
 		vp.SetExpels(bops)
 		if s.Fin {
